@@ -1,9 +1,148 @@
 import LinfaSpec.Model.Proto
+import LinfaSpec.Model.Scalar
+import LinfaSpec.Model.Gmm
 
 namespace LinfaSpec.Drv.C10
-open LinfaSpec.Proto
+open LinfaSpec.Proto LinfaSpec.Gmm
 
-/-- stub: replaced when the property's model lands -/
-def handle (_toks : List String) : String := "bad-op"
+/-- tolerant float token -/
+def sh (x : Float) : String := "~" ++ showF64c x
+
+/-- `ln(2π)` as the Rust code computes it: `f64::ln(2. * std::f64::consts::PI)` -/
+def ln2pi : Float := Float.log (2.0 * 3.141592653589793)
+
+/-- `10 · f64::EPSILON`, the EmptyCluster guard -/
+def thr : Float := 10.0 * Float.ofBits 0x3CB0000000000000
+
+def argF64s3 (toks : List String) (key : String) : Option (List (List (List Float))) :=
+  (arg toks key).bind (parseList3 parseF64)
+
+/-! ### presentation and conditioning (driver only, not part of the model)
+
+Covariances / precisions are printed scale-free: diagonals, and off-diagonal entries divided by
+`sqrt(m_aa m_bb)` — the rounding error of an inner product is bounded relative to that product
+of norms (Cauchy–Schwarz), not relative to the entry, which may cancel to ~0.
+
+A probability row is compared only when it is well conditioned: with `δ` a bound on the
+difference of the two sides' weighted log probabilities (`8(d+2)·ε·A`, `A` the magnitude of
+the terms summed), every non-top probability moves by at most `p_j(e^{2δ}−1)`; the row is
+well conditioned when these bounds add up to ≤ 1e-9.  Ill-conditioned lines carry
+`margin=0` and are skipped (counted) by the comparison. -/
+
+def diagOf (d : Nat) (m : List (List Float)) : List Float := (List.range d).map fun a => at2 m a a
+def corrOf (d : Nat) (m : List (List Float)) : List (List Float) :=
+  (List.range d).map fun a => (List.range d).map fun b =>
+    if a = b then 1.0 else at2 m a b / Float.sqrt (at2 m a a * at2 m b b)
+
+def eps : Float := Float.ofBits 0x3CB0000000000000
+
+def mahaAbs (d : Nat) (x mu : List Float) (pc : List (List Float)) : Float :=
+  sumRange d fun b =>
+    let y := sumRange d fun a => Float.abs ((x.getD a 0 - mu.getD a 0) * at2 pc a b)
+    y * y
+
+def maxF (l : List Float) : Float := l.foldl (fun m g => if g > m then g else m) 0.0
+
+/-- bound on the difference between two floating-point evaluations of `weightedLogProb` -/
+def deltaOf (d : Nat) (w : List Float) (mu : List (List Float)) (pcs : List (List (List Float)))
+    (x : List Float) : Float :=
+  let mags := (List.range w.length).map fun j =>
+    0.5 * mahaAbs d x (mu.getD j []) (pcs.getD j []) + 0.5 * (d.toFloat * ln2pi)
+      + (sumRange d fun a => Float.abs (Float.log (at2 (pcs.getD j []) a a))) + Float.abs (Float.log (w.getD j 0))
+  8.0 * (d.toFloat + 2.0) * eps * maxF mags
+
+/-- total bound on the movement of the probabilities of a row -/
+def errEst (delta : Float) (lr : List Float) : Float :=
+  let top := argmaxFirst lr
+  sumS (((List.range lr.length).filter (· ≠ top)).map fun j =>
+    let v := lr.getD j 0
+    Float.exp (v + 2.0 * delta) - Float.exp v)
+
+/-- `false` only when the estimate is a number above the tolerance (NaN compares) -/
+def wellP (delta : Float) (lr : List Float) : Bool := !(errEst delta lr > 1e-9)
+
+def wellLr (delta : Float) (lpn : Float) (lr : List Float) : Bool :=
+  let top := argmaxFirst lr
+  wellP delta lr && !(2.0 * delta > 1e-9 * (if Float.abs lpn > 1.0 then Float.abs lpn else 1.0)) &&
+  ((List.range lr.length).filter (· ≠ top)).all fun j =>
+    let a := Float.abs (lr.getD j 0)
+    !(2.0 * delta > 1e-9 * (if a > 1.0 then a else 1.0))
+
+def flag (b : Bool) : Float := if b then 2e-12 else 0.0
+
+structure Mix where
+  w : List Float
+  mu : List (List Float)
+  pc : List (List (List Float))
+  d : Nat
+
+def parseMix (toks : List String) : Option Mix := do
+  let w ← argF64s toks "w"
+  let mu ← argF64s2 toks "mu"
+  let pc ← argF64s3 toks "pc"
+  let d := (mu.headD []).length
+  if w.length = 0 ∨ mu.length ≠ w.length ∨ pc.length ≠ w.length then none
+  else if mu.any (fun r => r.length ≠ d) ∨ pc.any (fun m => m.length ≠ d ∨ m.any (fun r => r.length ≠ d)) then none
+  else some ⟨w, mu, pc, d⟩
+
+def parseObs (toks : List String) (d : Nat) : Option (List (List Float)) := do
+  let x ← argF64s2 toks "x"
+  if x.any (fun r => r.length ≠ d) then none else some x
+
+def handleEstep (toks : List String) : Option String := do
+  let m ← parseMix toks
+  let x ← parseObs toks m.d
+  let rows := x.map fun xi => logRespStable (weightedLogProb ln2pi m.d m.w m.mu m.pc xi)
+  let well := (x.zip rows).all fun (xi, r) => wellLr (deltaOf m.d m.w m.mu m.pc xi) r.1 r.2
+  some s!"ok lpn={showList sh (rows.map (·.1))} lr={showList2 sh (rows.map (·.2))} margin={sh (flag well)}"
+
+def handleMstep (toks : List String) : Option String := do
+  let reg ← argF64 toks "reg"
+  let x ← argF64s2 toks "x"
+  let r ← argF64s2 toks "r"
+  let n := x.length
+  let d := (x.headD []).length
+  let k := (r.headD []).length
+  if n = 0 ∨ r.length ≠ n ∨ x.any (fun q => q.length ≠ d) ∨ r.any (fun q => q.length ≠ k) then none else
+  match estimateParams thr reg n d k x r with
+  | .error e => some ("err " ++ e)
+  | .ok p =>
+    some s!"ok nk={showList showF64 p.nk} w={showList showF64 p.weights} mu={showList2 sh p.means} covdiag={showList2 sh (p.covs.map (diagOf d))} covcorr={showList3 sh (p.covs.map (corrOf d))}"
+
+def handlePrec (toks : List String) : Option String := do
+  let pc ← argF64s3 toks "pc"
+  let d := (pc.headD []).length
+  if pc.any (fun m => m.length ≠ d ∨ m.any (fun r => r.length ≠ d)) then none else
+  let ps := pc.map (precisionsFull d)
+  some s!"ok pdiag={showList2 sh (ps.map (diagOf d))} pcorr={showList3 sh (ps.map (corrOf d))}"
+
+def handleProba (toks : List String) : Option String := do
+  let m ← parseMix toks
+  let x ← parseObs toks m.d
+  let well := x.all fun xi =>
+    wellP (deltaOf m.d m.w m.mu m.pc xi) (logRespStable (weightedLogProb ln2pi m.d m.w m.mu m.pc xi)).2
+  some s!"ok p={showList2 sh (x.map (predictProba ln2pi m.d m.w m.mu m.pc))} margin={sh (flag well)}"
+
+def minF (l : List Float) : Float :=
+  l.foldl (fun m g => if g >= m then m else g) (1.0 / 0.0)
+
+def handlePredict (toks : List String) : Option String := do
+  let m ← parseMix toks
+  let x ← parseObs toks m.d
+  let ps := x.map (predictProba ln2pi m.d m.w m.mu m.pc)
+  let labs := ps.map argmaxFirst
+  let well := x.all fun xi =>
+    wellP (deltaOf m.d m.w m.mu m.pc xi) (logRespStable (weightedLogProb ln2pi m.d m.w m.mu m.pc xi)).2
+  some s!"ok lab={showList toString labs} margin={sh (if well then minF (ps.map margin) else 0.0)}"
+
+def handle (toks : List String) : String :=
+  let r := match toks with
+    | "estep" :: rest => handleEstep rest
+    | "mstep" :: rest => handleMstep rest
+    | "prec" :: rest => handlePrec rest
+    | "proba" :: rest => handleProba rest
+    | "predict" :: rest => handlePredict rest
+    | _ => none
+  r.getD "bad-op"
 
 end LinfaSpec.Drv.C10
